@@ -273,15 +273,36 @@ func ruleBroker(c *Ctx) {
 				}
 			}
 			// error from Receive ends the worker
+			// every error from Receive keeps the (zero) message away from the dispatch: the guard is
+			// `err != nil` (alone or as a disjunct — a conjunct would let some errors through), its body
+			// leaves the iteration, and it dominates the dispatch
 			errRet := false
+			wfl := newFlow(worker)
 			walkNoLit(worker.Body, func(x ast.Node) bool {
-				if ifs, isIf := x.(*ast.IfStmt); isIf && errNilCmp(info, ifs.Cond, token.NEQ) && containsReturn(ifs.Body) {
+				ifs, isIf := x.(*ast.IfStmt)
+				if !isIf || !blockLeaves(ifs.Body) || !wfl.Dominates(ifs.Cond, dcall) || p.inside(dcall, ifs.Body) {
+					return true
+				}
+				var disj func(e ast.Expr) bool
+				disj = func(e ast.Expr) bool {
+					e = ast.Unparen(e)
+					if be, isBin := e.(*ast.BinaryExpr); isBin {
+						if be.Op == token.LOR {
+							return disj(be.X) || disj(be.Y)
+						}
+						if be.Op == token.NEQ {
+							return errNilCmp(info, be, token.NEQ)
+						}
+					}
+					return false
+				}
+				if disj(ifs.Cond) {
 					errRet = true
 				}
 				return true
 			})
 			if !errRet {
-				ok, why = false, "a failed Receive does not end the worker: a zero message is dispatched"
+				ok, why = false, "not every failed Receive keeps its (zero) message away from dispatchMessage: a value that was never published is delivered to the subscribers"
 			}
 		}
 		R.Check(ok, "K2", "pubsub.(*Broker).startQueueWorkers/worker", p.Position(worker.Pos()), "for { msg := Receive; dispatchMessage(msg) }", why)
